@@ -25,7 +25,8 @@ import CpModel.Hooks
   * `Response.finalize`: status validation (`valid_status`: the generated table
     `Gen.Pipeline.validStatusRanges`, else `HTTPError(500)`), body
     collapse unless streaming (iterating a generator that raises / a non-iterable raises there),
-    no-body statuses.
+    no-body statuses (tested first, also for a streamed response — which statuses the running code treats that way
+    is read from it: `Gen.Pipeline.noBodyStreamRanges`).
   * `HTTPError.set_response`: status, traceback iff `show_tracebacks`, the `error_page` callable
     (its failure is caught and its text appended to the page — finding F2) or a template whose
     interpolation raises; `HTTPRedirect.set_response`: known redirect codes, `ValueError` otherwise.
@@ -180,13 +181,21 @@ def statusCode (s : St) : Nat :=
   | some 0 => falsyStatusCode
   | some c => c
 
+/-- the same for a streamed response (generated table, read from the live `finalize` with `stream = True`:
+    empty as long as `elif self.stream` came before the test of the status) -/
+def noBodyS (code : Nat) : Bool := inRanges noBodyStreamRanges code
+
 /-- `Response.finalize()` -/
 def finalize (s : St) : R :=
   let code := statusCode s
   if !inRanges validStatusRanges code then { st := s, exn := some (.httpError 500) }
   else
     let s1 := { s with status := some code, out := some code }
-    if streaming pg s then { st := s1 }
+    if streaming pg s then
+      -- bodiless statuses are tested first, streamed or not: `_flush_body()` iterates the body to the end
+      if noBodyS code then
+        if s.body.iterFails then { st := s1, exn := some .exc } else { st := { s1 with body := .empty } }
+      else { st := s1 }
     else if s.body.iterFails then { st := s1, exn := some .exc }
     else if noBody code then { st := { s1 with body := .empty } }
     else { st := { s1 with body := s.body.collapsed } }
